@@ -25,6 +25,26 @@ InvViol(a, p, threw, x) ==
     ELSE (IF threw THEN {} ELSE {"no-exception-for-non-invertible"})
 PrimeViol(p, res) == IF res # IsPrime(p) THEN {"primality"} ELSE {}
 
+\* ---- multiprecision operands, decided through residues -------------------------------------------------
+\* row = <<prime, v1 mod prime, v2 mod prime, ...>>.  An integer polynomial identity that holds modulo each of the
+\* 12 primes (product > 2^179) and whose value is bounded by 2^maxbits with maxbits + 2 < 170 holds over the integers.
+ModAll(res, f(_)) == \A i \in 1..Len(res) : Mod(f(res[i]), res[i][1]) = 0
+\* columns: 2 a, 3 b, 4 g, 5 x, 6 y, 7 a/g, 8 b/g ; bits: a b g x y a/g b/g
+GcdBigViol(ev) ==
+  LET bt == ev.bits
+      bound == bt[1] + bt[4] + 2 < 170 /\ bt[2] + bt[5] + 2 < 170 /\ bt[6] + bt[4] + 2 < 170 /\ bt[7] + bt[5] + 2 < 170
+  IN IF ~bound \/ Len(ev.res) # 12 THEN {"operands-too-large-for-the-residue-argument"}
+     ELSE (IF ~ev.gpos THEN {"gcd-not-positive"} ELSE {})
+     \cup (IF ~ModAll(ev.res, LAMBDA r : r[2] * r[5] + r[3] * r[6] - r[4]) THEN {"bezout"} ELSE {})
+     \cup (IF ~ModAll(ev.res, LAMBDA r : r[8] * r[4] - r[3]) \/ ~ModAll(ev.res, LAMBDA r : r[7] * r[4] - r[2])
+            THEN {"gcd-does-not-divide"} ELSE {})
+     \cup (IF ~ModAll(ev.res, LAMBDA r : r[7] * r[5] + r[8] * r[6] - 1) THEN {"not-the-greatest-common-divisor"} ELSE {})
+\* columns: 2 a, 3 p, 4 x, 5 k with a*x - 1 = k*p ; bits: a p x k
+InvBigViol(ev) ==
+  IF ev.threw THEN {}                 \* (invertibility of big operands is not re-decided: p is prime and 0 < a < p in the driver)
+  ELSE IF ev.bits[1] + ev.bits[3] + 2 >= 170 \/ ev.bits[4] + ev.bits[2] + 2 >= 170 THEN {"operands-too-large-for-the-residue-argument"}
+  ELSE IF ~ModAll(ev.res, LAMBDA r : r[2] * r[4] - 1 - r[5] * r[3]) THEN {"not-an-inverse"} ELSE {}
+
 \* ---- SpVecFP register machine -------------------------------------------------------------
 \* a register is a function from a finite set of coordinates to 1..p-1 (the non-zero entries)
 Zero == <<>>
